@@ -98,3 +98,4 @@ if keep and meta.get('valid'):
         n = json.load(open(nf)).get(f'{prop}-{store_as or which}')
         if n: meta['what'], meta['needs_to_manifest'] = n[0], n[1]
     json.dump(meta, open(f'{d}/meta.json', 'w'), indent=1)
+if src.startswith('/tmp/seedsrc-'): shutil.rmtree(src, ignore_errors=True)
